@@ -3,6 +3,7 @@ import LexVerif.Props.TablesParse
 import LexVerif.Proof.FastPathExact
 import LexVerif.Proof.LemireExact
 import LexVerif.Proof.LemireStable
+import LexVerif.Proof.LemireNegSmall
 import LexVerif.Proof.BellSound
 /-!
 # C01 — decimal string→float parsing is correctly rounded (property theorems)
@@ -232,19 +233,52 @@ theorem cfSound_nonneg (F : FTy) (hF : IsLemireFloat F) (q : Int) (hq : 0 ≤ q)
   obtain ⟨fp2, e1, e2⟩ := lemire_sound_nonneg F hF q hq w hw
   rw [e1] at h; injection h with h; subst h; exact e2 hv
 
-/-- **what is still open of `lemire_sound`**, (1): valid answers for negative exponents inside the table,
-`SMALLEST_POWER_OF_TEN ≤ q ≤ −1`. Sub-cases, by what the proof needs beyond `Proof.LemireStable`:
-* `q ≤ −28`, normal result: the rows are truncated reciprocals (`T ≤ 2^s/5^|q| < T + 1`) — the same stability
-  argument with denominator `5^|q|` (`cfRound_of_quot` and `quot_stable` are stated for arbitrary `N`, `D'`); no tie
-  (`5^28 ∤ w`);
-* `q ≤ −28`, subnormal result (`power2 ≤ 0`): the branch that shifts the `p + 1` bits further and rounds half-up
-  needs its own `round_step` (no exact tie, so the dropped sticky bits cannot matter);
-* `−27 ≤ q ≤ −1`: the rows are reciprocals rounded **up** (`⌊2^s/5^|q|⌋ + 1`), the error is on the other side
-  (a borrow when `lo = 0`), excluded by divisibility (`w·2^s − m·2^(128+sh)·5^|q|` is a multiple of `2^129` smaller
-  than `2^127`); the round-to-even test additionally needs, in the branch without second multiplication, that
-  `wn·hi5 ≡ 0, 1 (mod 2^(64+sh))` has no normalised solution — a finite check per row of the window. -/
+/-- valid answers for negative exponents inside the table, `SMALLEST_POWER_OF_TEN ≤ q ≤ −1` (**proved**:
+`lemire_neg_sound`). Three sub-cases:
+* `q ≤ −28`, normal result (`Proof.LemireNeg`): the rows are reciprocals truncated down — the stability argument of
+  `Proof.LemireStable` with denominator `5^|q|`; no tie (`5^28 ∤ w`);
+* `q ≤ −28`, subnormal result or zero (`cfRound_sub`): the further shift drops sticky bits that cannot matter;
+* `−27 ≤ q ≤ −1` (`Proof.LemireNegSmall`): the rows are reciprocals rounded **up**; a borrow when `lo = 0` is excluded
+  by divisibility (`N` and the boundary are multiples of `2^129`, `2^127` apart at most); the round-to-even test is
+  exact: a tie shows as `lo = 0` and forces `5^|q|·2^p ≤ w` (the window), the pattern `lo ≤ 1` is a tie after the second
+  multiplication and impossible without it (`tieRowOk`, a kernel-evaluated check per row of the window). -/
 def LemireNegSound : Prop :=
   ∀ F, IsLemireFloat F → ∀ (q : Int) (w : Nat), F.C.smallestPowerOfTen ≤ q → q < 0 → w < 2 ^ 64 → CFSound F q w
+
+/-- **`LemireNegSound` holds**: `compute_float` is right for every negative exponent inside the table. -/
+theorem lemire_neg_sound : LemireNegSound := by
+  intro F hF q w hsm hq hw fp hcf hv
+  by_cases hw0 : w = 0
+  · obtain ⟨fp2, e1, _, e3⟩ := lemire_sound_partial F hF q w hw (Or.inl hw0)
+    rw [e1] at hcf; injection hcf with hcf; subst hcf; exact e3
+  · obtain ⟨e, rfl⟩ : ∃ e : Nat, q = -(e : Int) := ⟨(-q).toNat, by omega⟩
+    have hpf : powFrac 10 (-(e : Int)) w = (w, 10 ^ e) := by
+      unfold powFrac; rw [if_neg (by omega)]; simp
+    rw [hpf]
+    have key : ∀ {p eb sm lg rlo rhi}, LemLayout F p eb sm lg rlo rhi → rlo < 28 → 2 ^ 64 ≤ 5 ^ (rlo + 1) * 2 ^ p →
+        (∀ e, 1 ≤ e → e ≤ rlo → LexVerif.Proof.Lemire.tieRowOk p e = true) → 91 ≤ 2 ^ (eb - 1) - 1 →
+        extendedToFloat F fp = roundNE F.fmt w (10 ^ e) := by
+      intro p eb sm lg rlo rhi LL hrlo hwin htc hbias
+      rw [LL.smallest] at hsm
+      by_cases h27 : e ≤ 27
+      · obtain ⟨fp2, e1, _, e3⟩ := LexVerif.Proof.Lemire.computeFloat_neg_small LL hwin htc hbias e (by omega) h27
+          (by omega) w hw0 hw
+        rw [e1] at hcf; injection hcf with hcf; subst hcf; exact e3
+      · obtain ⟨fp2, e1, e2⟩ := LexVerif.Proof.Lemire.computeFloat_trunc_neg LL hrlo e (by omega) (by omega) w hw0 hw
+        rw [e1] at hcf; injection hcf with hcf; subst hcf; exact e2 hv
+    rcases hF with h | h <;> subst h
+    · exact key lemLayout_f64 (by decide) (by decide) LexVerif.Proof.Lemire.tieRows_f64 (by decide)
+    · exact key lemLayout_f32 (by decide) (by decide) LexVerif.Proof.Lemire.tieRows_f32 (by decide)
+
+/-- `compute_float` is right (`CFSound`) for **every** exponent and mantissa -/
+theorem cfSound_all (F : FTy) (hF : IsLemireFloat F) (q : Int) (w : Nat) (hw : w < 2 ^ 64) : CFSound F q w := by
+  by_cases h0 : 0 ≤ q
+  · exact cfSound_nonneg F hF q h0 w hw
+  · by_cases hsm : F.C.smallestPowerOfTen ≤ q
+    · exact lemire_neg_sound F hF q w hsm (by omega) hw
+    · intro fp hcf _
+      obtain ⟨fp2, e1, _, e3⟩ := lemire_sound_partial F hF q w hw (Or.inr (Or.inl (by omega)))
+      rw [e1] at hcf; injection hcf with hcf; subst hcf; exact e3
 
 /-- **what is still open of `lemire_sound`**, (2): the invalid-marked answers (`lo` all ones outside `[−27, 55]`)
 bracket the value — the estimate `hi` is at most one unit below the exact upper word, so `roundNE` is the
